@@ -189,8 +189,13 @@ def traces(v, tier, seed):
                 os.unlink(tr)
             rc, out, err = sh([drv, tr, str(s), str(perturb), str(execs), str(maxn)], timeout=400)
             res = None
-            if os.path.exists(tr) and rc in (0, 2, 70, 71):
+            if os.path.exists(tr) and rc == 0:
                 res = _validate(tr, str(i))
+            elif os.path.exists(tr) and rc in (2, 70, 71):
+                try:   # only to say where the execution leaves the spec; the oracle / hang / crash is the verdict
+                    res = _validate(tr, str(i))
+                except Broken:
+                    res = None
             return i, s, perturb, tr, rc, err, res
         return f
     results = _par([job(i, *p) for i, p in enumerate(plan)], 6)
